@@ -252,7 +252,8 @@ func c09EngEnumerate(sh *evidence.Shard) {
 		}
 	}
 	if aclCacheSize != 1024 {
-		sh.InfraError("model drift: aclCacheSize is %d; the directed production-size run of the acl unit uses 1024", aclCacheSize)
+		// not a property clause: the cache capacity is the implementation's choice
+		sh.Assume(fmt.Sprintf("the outbound layer's cache size is %d on this tree; the directed production-size run of the acl unit uses 1024 (the size on the pinned tree)", aclCacheSize))
 	}
 	sh.Assume("stub outbounds record the request; real outbounds (direct/socks5/http) and the built-in direct/reject names are not part of this property")
 	th := env.Thorough()
